@@ -699,13 +699,42 @@ Proof.
   rewrite map_map. reflexivity.
 Qed.
 
+(** * Which functions run by themselves: init functions and main, among look-alikes *)
+
+Lemma is_init_agree d : y_is_init d = g_is_init d.
+Proof. destruct d as [k n m]; destruct k; destruct n; reflexivity. Qed.
+
+Lemma find_main_agree ds :
+  decls_wf true ds = true -> find y_is_main_sym ds = find g_is_main ds.
+Proof.
+  simpl. induction ds as [|d ds IH]; intros H; simpl in *; [reflexivity|].
+  apply andb_true_iff in H. destruct H as [Hd H].
+  destruct d as [k n m]; destruct k; destruct n; simpl in *; try reflexivity; try (apply IH; exact H).
+  discriminate.
+Qed.
+
+(** For ALL declaration lists (functions, methods, function literals and package variables named
+    init, main or otherwise, in any number and order), the functions yaegi runs by itself, in
+    order, are those Go runs: the receiver-less functions named init in source order, then main's
+    main for package main only. *)
+Theorem special_agree is_main ds :
+  decls_wf is_main ds = true -> y_special is_main ds = g_special is_main ds.
+Proof.
+  intros H. unfold y_special, g_special.
+  rewrite (filter_ext _ _ is_init_agree). f_equal.
+  destruct is_main.
+  - rewrite (find_main_agree ds H). reflexivity.
+  - destruct (find y_is_main_sym ds); reflexivity.
+Qed.
+
 Theorem program_agree g : program_side g = true -> y_trace g = g_trace g.
 Proof.
   unfold program_side. intros H. apply andb_true_iff in H. destruct H as [Ho Hb].
   unfold y_trace, g_trace, trace_along. rewrite (pkg_order_agree g Ho). f_equal.
   apply map_ext. intros p. destruct (find_pk (packages g) p) as [pk|] eqn:F; [|reflexivity].
   destruct (find_pk_In _ _ _ F) as [Hin _]. rewrite forallb_forall in Hb.
-  unfold pk_trace. rewrite (pkg_side_agree _ (Hb pk Hin)). reflexivity.
+  specialize (Hb pk Hin). apply andb_true_iff in Hb. destruct Hb as [Hs Hw].
+  unfold pk_trace. rewrite (pkg_side_agree _ Hs). rewrite (special_agree _ _ Hw). reflexivity.
 Qed.
 
 (** * Witnesses (each one is also a fixed case of the harness, replayed on yaegi and on compiled Go) *)
@@ -715,7 +744,11 @@ Local Open Scope N_scope.
 (** [var vN = lg(N, refs...)]: the mark printed is the variable's number *)
 Definition v (n : id) (refs : list ref) : spec := SPair [(n, mkinit n refs)].
 
-Definition single (p : pkg) : program := mkprog [mkpk 9 [] p [] true] 9.
+(** [func init() { lg(m1); ... }] and [func main() { lg(0) }] *)
+Definition ini (l : list id) : sdecl := mksd DFunc NInit l.
+Definition fmain : sdecl := mksd DFunc NMain [0].
+
+Definition single (p : pkg) : program := mkprog [mkpk 9 [] p [fmain] true] 9.
 
 (** var a = lg(c); var b = lg(a); var c = lg(); var d = lg()              (a b c d = 1 2 3 4) *)
 Definition w_direct : pkg := mkpkg [v 1 [RV 3]; v 2 [RV 1]; v 3 []; v 4 []] [].
@@ -766,9 +799,9 @@ Proof. vm_compute. split; reflexivity. Qed.
 
 (** package main imports p02 then p01, which do not import each other *)
 Definition w_pkg_order : program :=
-  mkprog [mkpk 1 [] (mkpkg [v 11 []] []) [12]%N false;
-          mkpk 2 [] (mkpkg [v 21 []] []) [22]%N false;
-          mkpk 9 [2; 1]%N (mkpkg [v 91 []] []) [] true] 9.
+  mkprog [mkpk 1 [] (mkpkg [v 11 []] []) [ini [12]] false;
+          mkpk 2 [] (mkpkg [v 21 []] []) [ini [22]] false;
+          mkpk 9 [2; 1]%N (mkpkg [v 91 []] []) [fmain] true] 9.
 
 Lemma refuted_pkg_order :
   y_trace w_pkg_order = Some [21; 22; 11; 12; 91; 0]%N /\ g_trace w_pkg_order = Some [11; 12; 21; 22; 91; 0]%N.
@@ -807,12 +840,49 @@ Lemma sorted_inhabited :
 Proof. vm_compute. repeat split. Qed.
 
 Definition w_program : program :=
-  mkprog [mkpk 1 [] w_plain [7]%N false; mkpk 2 [1]%N w_sorted [8]%N false; mkpk 9 [1; 2]%N w_plain [9]%N true] 9.
+  mkprog [mkpk 1 [] w_plain [ini [7]] false; mkpk 2 [1]%N w_sorted [ini [8]] false;
+          mkpk 9 [1; 2]%N w_plain [ini [9]; fmain] true] 9.
 
 Lemma program_inhabited :
   program_side w_program = true
   /\ y_trace w_program = Some [2; 3; 1; 7; 1; 2; 4; 5; 6; 8; 2; 3; 1; 9; 0]%N.
 Proof. vm_compute. split; reflexivity. Qed.
+
+(** look-alikes of init and main.
+    p01: func (k k21) init(); func init(); func main(); func init() { ...; main() }
+    p02: var main = func() {...}; func init()
+    main: methods init (value and pointer receiver), main, Init; func Init; var initFn = func;
+          func init() calling the methods, a local [init := func() {...}] and Init; func init() calling initFn;
+          func main() with a local [main := func() {...}], calling it and the method main *)
+Definition w_special : program :=
+  mkprog [mkpk 1 [] (mkpkg [] [])
+               [mksd DMethod NInit [21]; ini [3]; mksd DFunc NMain [22]; ini [4; 22]] false;
+          mkpk 2 [] (mkpkg [] []) [mksd DVar NMain [23]; ini [5]] false;
+          mkpk 9 [1; 2] (mkpkg [] [])
+               [mksd DMethod NInit [11]; mksd DMethod NInit [12]; mksd DMethod NMain [13]; mksd DMethod NOther [14];
+                mksd DFunc NOther [15]; mksd DVar NOther [17];
+                ini [1; 11; 12; 18; 15]; mksd DLit NInit [18]; ini [2; 17];
+                mksd DFunc NMain [0; 19; 13]; mksd DLit NMain [19]] true] 9.
+
+(** the two tests of the code, each dropped in turn (the seeded changes C15-init-method-runs and
+    C15-imported-main-runs): what yaegi would print on [w_special] *)
+Definition y_special_no_recv_test (is_main : bool) (ds : list sdecl) : list id :=
+  flat_map sd_marks (filter (fun d => match sd_kind d, sd_name d with DFunc, NInit | DMethod, NInit => true | _, _ => false end) ds)
+  ++ match find y_is_main_sym ds with Some m => if is_main then sd_marks m else [] | None => [] end.
+
+Definition y_special_no_pkg_test (is_main : bool) (ds : list sdecl) : list id :=
+  flat_map sd_marks (filter y_is_init ds)
+  ++ match find g_is_main ds with Some m => sd_marks m | None => [] end.
+
+Lemma special_inhabited :
+  program_side w_special = true
+  /\ y_trace w_special = Some [3; 4; 22; 5; 1; 11; 12; 18; 15; 2; 17; 0; 19; 13]
+  /\ g_trace w_special = Some [3; 4; 22; 5; 1; 11; 12; 18; 15; 2; 17; 0; 19; 13]
+  /\ trace_along y_order y_special_no_recv_test (packages w_special) (y_pkg_order w_special)
+     = Some [21; 3; 4; 22; 5; 11; 12; 1; 11; 12; 18; 15; 2; 17; 0; 19; 13]
+  /\ trace_along y_order y_special_no_pkg_test (packages w_special) (y_pkg_order w_special)
+     = Some [3; 4; 22; 22; 5; 1; 11; 12; 18; 15; 2; 17; 0; 19; 13].
+Proof. vm_compute. repeat split. Qed.
 
 (** a direct cycle is rejected by both *)
 Definition w_cycle : pkg := mkpkg [v 1 [RV 2]; v 2 [RV 1]; v 3 []] [].
